@@ -9,7 +9,7 @@ package main
 //   handshakeChecks                         the comparisons NewTransportHandle makes
 //   dotdotChecks                            strings.Contains(path, "..") in serviceGenerator.Generate
 //   closeShape / flagHandleShape            calls of transportHandle.Close / Flag.Handle's error branch
-//   generatePhases                          order of the phases of gen.Generate (write loop last)
+//   generatePhases                          order of the phases of gen.Generate (path check, then the write loop, last)
 //   sendShape                               frame.Client.Send: lock held across write+read
 //   multiGenerateShape                      MultiServiceGenerator.Generate: merge under the mutex
 //   poolVars, poolSites, poolStructs        every sync.Pool of protocol/binary: element type,
@@ -260,7 +260,7 @@ func genProto() {
 	if fd := protoMethod(parse("gen/generate.go"), "", "Generate"); fd != nil {
 		phases = protoCalls(fd.Body, func(n string) bool {
 			switch n {
-			case "generateModule", "addFile", "generate", "m.Walk", "plug.Generate", "mergeFiles", "os.MkdirAll", "os.WriteFile", "filepath.Join":
+			case "generateModule", "addFile", "generate", "m.Walk", "plug.Generate", "mergeFiles", "checkFilePaths", "os.MkdirAll", "os.WriteFile", "filepath.Join":
 				return true
 			}
 			return false
